@@ -162,6 +162,8 @@ class IffChunk(object):
         """Update the size of the chunk"""
 
         old_size = self.size
+        if self.data_size + size_diff < 0:
+            raise InvalidChunk("Invalid chunk size")
         self.data_size += size_diff
         self._fileobj.seek(self.offset + 4)
         self.write_size()
